@@ -1,6 +1,8 @@
 import AidlVerif.Model.Traverse
+import AidlVerif.Model.Diagnostic
 
-/-! Model of `/repo/src/symbol.rs`: `get_name`, `get_qualified_name` (ranges are in Traverse). -/
+/-! Model of `/repo/src/symbol.rs`: `get_name`, `get_qualified_name`, `get_details`, `get_signature`
+(ranges are in Traverse). -/
 
 namespace Aidl
 
@@ -37,6 +39,58 @@ def Symbol.qualifiedName : Symbol → Option String
   | .type t => match t.kind with
     | .resolved q _ => some q
     | _ => none
+
+/-! ### `get_details`, `get_signature` -/
+
+mutual
+/-- `get_type_str` (the same local function in both): `name` or `name<p1, p2, …>` at every depth -/
+def Ty.str : Ty → String
+  | .mk n _ g _ _ => if g.isEmpty then n else n ++ "<" ++ joinWith ", " (Ty.strList g) ++ ">"
+def Ty.strList : List Ty → List String
+  | [] => []
+  | t :: ts => Ty.str t :: Ty.strList ts
+end
+
+def Direction.prefixStr : Direction → String
+  | .in_ _ => "in "
+  | .out _ => "out "
+  | .inout _ => "inout "
+  | .unspecified => ""
+
+/-- `get_arg_str` of `get_details`: direction and type -/
+def Arg.detailStr (a : Arg) : String := a.direction.prefixStr ++ a.argType.str
+
+/-- `get_arg_str` of `get_signature`: direction, type and, when present, the name -/
+def Arg.sigStr (a : Arg) : String :=
+  a.direction.prefixStr ++ a.argType.str ++ (match a.name with | some s => " " ++ s | none => "")
+
+/-- `Symbol::get_details` -/
+def Symbol.details : Symbol → Option String
+  | .package _ => some "package"
+  | .import_ _ => some "import"
+  | .interface _ _ => some "interface"
+  | .parcelable _ _ => some "parcelable"
+  | .enum _ _ => some "enum"
+  | .method m _ => some (m.returnType.str ++ "(" ++ joinWith ", " (m.args.map Arg.detailStr) ++ ")")
+  | .arg a _ => some a.detailStr
+  | .const c _ => some ("const " ++ c.constType.str)
+  | .field f _ => some f.fieldType.str
+  | .enumElement _ _ => none
+  | .type t => some t.str
+
+/-- `Symbol::get_signature` -/
+def Symbol.signature : Symbol → String
+  | .package p => "package " ++ p.name
+  | .import_ i => "import " ++ i.qname
+  | .interface i _ => "interface " ++ i.name
+  | .parcelable p _ => "parcelable " ++ p.name
+  | .enum e _ => "enum " ++ e.name
+  | .method m _ => m.returnType.str ++ " " ++ m.name ++ "(" ++ joinWith ", " (m.args.map Arg.sigStr) ++ ")"
+  | .arg a _ => a.sigStr
+  | .const c _ => "const " ++ c.constType.str ++ " " ++ c.name
+  | .field f _ => f.fieldType.str ++ " " ++ f.name
+  | .enumElement el _ => el.name
+  | .type t => t.str
 
 /-- a short tag for the symbol's variant -/
 def Symbol.tag : Symbol → String
